@@ -7,7 +7,9 @@
 (* / IsMaxAt / IsMinAt of RpmVercmp) evaluated by TLC on the same inputs.   *)
 (*                                                                         *)
 (*   vrow : a |-> i, rs |-> <<r_1..r_n>>      r_j = _rpm_vercmp(strs[i], strs[j])            *)
-(*   erow : a |-> i, cmp |-> <<..>>, ops |-> <<..>>                                          *)
+(*   erow : a |-> i, lc |-> class of the left operands, rc |-> class of the right operands   *)
+(*          (InstalledRpm, its subclass YumListRpm, a subclass of the driver's own),         *)
+(*          cmp |-> <<..>>, ops |-> <<..>>                                                   *)
 (*                cmp[j] = rpm_version_compare(evrs[i], evrs[j]),                            *)
 (*                ops[j] = <<x<y, x==y, x>y, x<=y, x>=y, x!=y>> of the InstalledRpm objects  *)
 (*   sel  : via |-> which RpmList holds the packages (InstalledRpms from JSON / rpm -qa      *)
@@ -35,6 +37,10 @@ More == l < Len(T.events)
 S(i) == T.strs[i]
 E(i) == T.evrs[i]
 
+(* classes the compared package objects are built from: the answer must not depend on them *)
+PkgClasses == {"InstalledRpm", "YumListRpm", "OwnRpm"}
+Pairing == Ev.lc \o "-vs-" \o Ev.rc
+
 VRowOK  == \A j \in DOMAIN T.strs : Ev.rs[j] = VerCmp(S(Ev.a), S(j))
 ERowOK  == \A j \in DOMAIN T.evrs :
               LET c == EvrCmp(E(Ev.a), E(j)) IN Ev.cmp[j] = c /\ Ev.ops[j] = OpsOf(c)
@@ -47,6 +53,7 @@ TableOK == VerCmp(S(Ev.a), S(Ev.b)) = Ev.r
 WellFormed ==
     CASE Ev.ev = "vrow"  -> Ev.a \in DOMAIN T.strs /\ Len(Ev.rs) = Len(T.strs)
       [] Ev.ev = "erow"  -> Ev.a \in DOMAIN T.evrs /\ Len(Ev.cmp) = Len(T.evrs) /\ Len(Ev.ops) = Len(T.evrs)
+                            /\ Ev.lc \in PkgClasses /\ Ev.rc \in PkgClasses
                             /\ \A j \in DOMAIN T.evrs : EpochOK(E(j).e)
       [] Ev.ev = "sel"   -> Len(Ev.pk) > 0 /\ \A i \in DOMAIN Ev.pk : Ev.pk[i] \in DOMAIN T.evrs /\ EpochOK(E(Ev.pk[i]).e)
       [] Ev.ev = "table" -> Ev.a \in DOMAIN T.strs /\ Ev.b \in DOMAIN T.strs
@@ -80,12 +87,13 @@ DiagE ==
                  LET c == EvrCmp(E(Ev.a), E(j)) IN ~(Ev.cmp[j] = c /\ Ev.ops[j] = OpsOf(c))
         d == EvrCmpD(E(Ev.a), E(j))
     IN IF Ev.cmp[j] # d.r
-       THEN [clause |-> "EvrCmp:" \o d.why \o ":want" \o Str(d.r) \o ":got" \o Str(Ev.cmp[j]), at |-> <<Ev.a, j>>]
-       ELSE IF Len(Ev.ops[j]) # 6
-       THEN [clause |-> "RichOps:raised:when" \o Str(d.r), at |-> <<Ev.a, j>>]
-       ELSE LET o == CHOOSE o \in 1..6 : Ev.ops[j][o] # OpsOf(d.r)[o] IN
-            [clause |-> "RichOps:" \o OpNames[o] \o ":when" \o Str(d.r) \o ":got" \o ToString(Ev.ops[j][o]),
+       THEN [clause |-> "EvrCmp:" \o d.why \o ":want" \o Str(d.r) \o ":got" \o Str(Ev.cmp[j]) \o ":" \o Pairing,
              at |-> <<Ev.a, j>>]
+       ELSE IF Len(Ev.ops[j]) # 6
+       THEN [clause |-> "RichOps:raised:when" \o Str(d.r) \o ":" \o Pairing, at |-> <<Ev.a, j>>]
+       ELSE LET o == CHOOSE o \in 1..6 : Ev.ops[j][o] # OpsOf(d.r)[o] IN
+            [clause |-> "RichOps:" \o OpNames[o] \o ":when" \o Str(d.r) \o ":got" \o ToString(Ev.ops[j][o])
+                        \o ":" \o Pairing, at |-> <<Ev.a, j>>]
 
 Where(m) == IF m = -1 THEN "raised" ELSE IF m \in DOMAIN Ev.pk THEN "not-extremal" ELSE "not-a-member"
 DiagS ==
